@@ -2,7 +2,7 @@
     For EVERY Unicode string / line list / (possibly stale) position the byte-slicing
     text functions return a value: no slice off a character boundary, no index out of
     range, no unsigned underflow, no loop that outruns its bound. *)
-From PLS Require Import Model.TextFns Proofs.TextFns.
+From PLS Require Import Model.TextFns Proofs.TextFns Model.Analyzer Proofs.StrSpanTotal.
 
 Theorem C11_format_docstring_total : forall s, exists r, format_docstring s = Ok r.
 Proof. exact format_docstring_total. Qed.
@@ -46,6 +46,38 @@ Theorem C11_slice_at_prefix_sums :
 Proof. exact slice_prefix_sums. Qed.
 Print Assumptions C11_slice_at_prefix_sums.
 
+(** [string_usage_span]: the search for a fixture name inside a string literal (usefixtures,
+    parametrize indirect) slices the literal at its cursor three times per round.  From a
+    character boundary — offset 0, or the byte behind the (ASCII) opening quote — every
+    slice succeeds and the loop ends within its bound: for every literal, every non-empty
+    name, every classification of characters into identifier / other *)
+Theorem C11_string_usage_token_total :
+  forall identc name src from rest,
+    name <> [] -> slice_from src from = Some rest ->
+    exists r, string_usage_token identc (S (length src)) name src from = Ok r.
+Proof. exact string_usage_token_total. Qed.
+Print Assumptions C11_string_usage_token_total.
+
+Theorem C11_string_usage_start_is_boundary :
+  (forall src, slice_from src 0 = Some src) /\
+  (forall pre q post, (q < 128)%N -> slice_from (pre ++ q :: post) (blen pre + 1)%N = Some post).
+Proof. split; [exact slice_from_zero|exact (slice_behind_ascii (fun _ => true))]. Qed.
+Print Assumptions C11_string_usage_start_is_boundary.
+
+(** and it computes what the total model used by C03 / C15 ([find_token], compared with the
+    code's recorded usages on every run) computes *)
+Theorem C11_string_usage_token_is_the_model :
+  forall fuel name src from r,
+    string_usage_token ident_char fuel name src from = Ok r -> find_token fuel name src from = r.
+Proof. exact token_loop_is_find_token. Qed.
+Print Assumptions C11_string_usage_token_is_the_model.
+
+(** advancing the cursor by one byte instead of the name's length panics (seeded change S44) *)
+Theorem C11_string_usage_plus_one_refuted :
+  string_usage_token_plus_one ident_char (S (length lit_s44)) name_s44 lit_s44 1 = Panic /\
+  string_usage_token ident_char (S (length lit_s44)) name_s44 lit_s44 1 = Ok (Some 10%N).
+Proof. exact string_usage_token_plus_one_refuted. Qed.
+
 (** what the four repairs changed: on these inputs the code before the fix panics *)
 Theorem C11_old_format_docstring_refuted :
   format_docstring_old [120; 10; 32; 32; 97; 10; 12288; 98]%N = Panic
@@ -74,3 +106,7 @@ Check C11_extract_word_total :
   forall wordc line character, exists r, extract_word_at_position wordc line character = Ok r.
 Check C11_parameter_has_annotation_total :
   forall ls line end_char, exists r, parameter_has_annotation ls line end_char = Ok r.
+Check C11_string_usage_token_total :
+  forall identc name src from rest,
+    name <> [] -> slice_from src from = Some rest ->
+    exists r, string_usage_token identc (S (length src)) name src from = Ok r.
